@@ -401,4 +401,30 @@ theorem knife_model_passive_rows (R N M start : ℕ) (hM : 0 < M) (h : start + N
 /-- Conjugation does not change the modulus: the backward direction satisfies the same hypotheses. -/
 example (z : ℂ) (h : ‖z‖ ≤ 1) : ‖(starRingEnd ℂ) z‖ ≤ 1 := by rwa [Complex.norm_conj]
 
+/-- **Total power of polarised wavefronts** (`Passive.powerJ`, `powerV` = `Wavefront.total_power` of Jones-matrix / Jones-vector
+wavefronts, driver op `powerpol`): per-pixel scalar transmissions with `|t_i| = 1` conserve it, with `|t_i| ≤ 1` never increase it,
+for arbitrary non-negative cell areas and any physical input Stokes vector. -/
+theorem mask_model_polarised_total (t : ℕ → Cx ℝ) (e : ℕ → J2 ℝ) (v : ℕ → V2 ℝ) (s : S4 ℝ) (w : ℕ → ℝ) (n : ℕ)
+    (ha : 0 ≤ s.i) (hphys : s.q ^ 2 + s.u ^ 2 + s.v ^ 2 ≤ s.i ^ 2) (hw : ∀ i < n, 0 ≤ w i) :
+    ((∀ i < n, (t i).normSq = 1) →
+      powerJ (fun i => maskJ (t i) (e i)) s w n = powerJ e s w n ∧ powerV (fun i => maskV (t i) (v i)) w n = powerV v w n) ∧
+    ((∀ i < n, (t i).normSq ≤ 1) →
+      powerJ (fun i => maskJ (t i) (e i)) s w n ≤ powerJ e s w n ∧ powerV (fun i => maskV (t i) (v i)) w n ≤ powerV v w n) := by
+  unfold powerJ powerV
+  simp only [Fft.sumRange_eq]
+  constructor
+  · intro ht
+    constructor <;>
+    · apply Finset.sum_congr rfl
+      intro i hi
+      have h := ((mask_model_polarised_passive (t i) (e i) s (v i) ha hphys).1 (ht i (Finset.mem_range.mp hi)))
+      first | rw [h.1] | rw [h.2]
+  · intro ht
+    constructor <;>
+    · apply Finset.sum_le_sum
+      intro i hi
+      have h := ((mask_model_polarised_passive (t i) (e i) s (v i) ha hphys).2 (ht i (Finset.mem_range.mp hi)))
+      have hwi := hw i (Finset.mem_range.mp hi)
+      first | exact mul_le_mul_of_nonneg_right h.1 hwi | exact mul_le_mul_of_nonneg_right h.2 hwi
+
 end HcipyVerif.C07
